@@ -730,6 +730,20 @@ func (m *Machine) exec(fr *Frame, in ssa.Instruction, isInit bool) {
 		fr.env[x] = m.binop(x.Op, m.get(fr, x.X), m.get(fr, x.Y), x.X.Type())
 	case *ssa.Convert:
 		fr.env[x] = m.convert(m.get(fr, x.X), x.X.Type(), x.Type())
+	case *ssa.SliceToArrayPointer:
+		// (*[N]byte)(slice): panics when the slice is shorter than N
+		n := x.Type().(*types.Pointer).Elem().Underlying().(*types.Array).Len()
+		switch b := m.get(fr, x.X).(type) {
+		case Bytes:
+			m.require(Cmp("bvsle", BV(64, uint64(n)), b.len), "panic", "cannot convert slice to array pointer: slice too short")
+			if b.st == nil {
+				fr.env[x] = NilPtr{}
+			} else {
+				fr.env[x] = ByteArrPtr{st: b.st, off: b.off, n: int(n)}
+			}
+		default:
+			panic(fmt.Sprintf("SliceToArrayPointer on %T", b))
+		}
 	case *ssa.ChangeType:
 		fr.env[x] = m.get(fr, x.X)
 	case *ssa.Extract:
